@@ -158,7 +158,15 @@ inline std::atomic<uint64_t>& viol_count()
 // violation: property, short key (stable across runs, used for de-duplication / known findings), witness object
 inline void violation(char const* prop, std::string const& key, J const& witness)
 {
-  if (viol_count().fetch_add(1) > 50) return; // cap output
+  // cap output: at most 5 witnesses per (property, key) and 300 in total per process, so that a frequent (possibly
+  // known) finding can never crowd out a different one
+  {
+    static std::mutex mu;
+    static std::map<std::string, int> per_key;
+    std::lock_guard<std::mutex> g{mu};
+    if (++per_key[std::string{prop} + "|" + key] > 5) return;
+  }
+  if (viol_count().fetch_add(1) > 300) return;
   emit(J{}.str("k", "viol").str("prop", prop).str("key", key).raw("witness", witness.done()).done());
 }
 inline void sample(J const& j)
